@@ -69,6 +69,34 @@ def Entry.text (e : Entry) : Str := e.help.flatten ++ valueLine e.name e.ser
 
 def fileText (es : List Entry) : Str := Gen.Registry.confFileHeader ++ (es.map Entry.text).flatten
 
+/-- the comment block `registry.close` writes above a value that has a help text (lines without
+their LF): a blank line unless it is the first block of the file, `###`, the help as wrapped by
+`textwrap.wrap` (a parameter), `#` and the serialized default when it is shown, `###` -/
+def helpBlock (first : Bool) (wrapped : List Str) (dfltSer : Option Str) : List Str :=
+  (if first then [] else [[]]) ++ ['#', '#', '#'] :: wrapped.map ('#' :: ' ' :: ·) ++
+    (match dfltSer with
+     | some d => [['#'], "# Default value: ".toList ++ d]
+     | none => []) ++ [['#', '#', '#']]
+
+/-- what `close` is told about one listed value -/
+structure Spec where
+  wrapped : Option (List Str)      -- `textwrap.wrap(help)` when the help is not empty
+  dfltSer : Option Str             -- serialized default when `_showDefault`
+  name : Str
+  ser : Str                        -- `value.serialize()`
+deriving DecidableEq, Repr
+
+/-- the entries of the file; `first` = no help block has been written yet -/
+def renderSpecs : Bool → List Spec → List Entry
+  | _, [] => []
+  | first, sp :: rest =>
+    match sp.wrapped with
+    | some w => ⟨(helpBlock first w sp.dfltSer).map (· ++ ['\n']), sp.name, sp.ser⟩ :: renderSpecs false rest
+    | none => ⟨[], sp.name, sp.ser⟩ :: renderSpecs first rest
+
+/-- the whole file `registry.close` writes -/
+def closeText (specs : List Spec) : Str := fileText (renderSpecs true specs)
+
 /-! ### reader -/
 
 /-- number of trailing backslashes is odd (`slashEnd = re.compile(r'\\*$')`, `len(m.group(0)) % 2`) -/
